@@ -305,7 +305,10 @@ impl Bundle {
                 return None;
             }
             // IO Finalizer has run, and neither bundle has excess spends or outputs.
-            (Some(_), _) | (_, Some(_)) => (),
+            (Some(_), _) => (),
+            // Only the other bundle carries `bsk`: keep it, so that merging does not depend
+            // on the order of the inputs and no field an input carried is lost.
+            (None, Some(rhs)) => self.bsk = Some(rhs),
             // IO Finalizer has not run on either bundle.
             (None, None) => {
                 let (spends_cmp_other, outputs_cmp_other) = match (
